@@ -88,6 +88,9 @@ func (m *mon) payload(t *rapid.T) []byte {
 	binary.LittleEndian.PutUint64(buf[8:], m.markerSeq)
 	h := sha256.Sum256(buf[:])
 	n := rapid.SampledFrom([]int{0, 1, 16, 100, 4096}).Draw(t, "payloadExtra")
+	if rapid.IntRange(0, 49).Draw(t, "hugePayload") == 23 { // (rapid favours the ends of a range: an interior value keeps this rare)
+		n = 70000 // beyond 64 KiB
+	}
 	p := append([]byte{}, h[:24]...)
 	for i := 0; i < n; i++ {
 		p = append(p, h[i%32]^byte(i))
@@ -359,6 +362,10 @@ func (m *mon) after(ev *world.Event) {
 			m.scan.Add(ev.Rec.Payload[:24], fmt.Sprintf("payload marker of rec%d", ev.Rec.ID))
 		}
 		hay = append(hay, ev.Rec.JSON, ev.Rec.DRR.Data, ev.Rec.DRR.Key.EncryptedKey)
+	}
+	if ev.Kind == "decrypt" && ev.Detail == "RECORD-MODIFIED" && ev.ArgAfter != nil && ev.ArgAfter.Key != nil {
+		// the data row record the caller passed in is still a data row record afterwards (an untouched one was scanned when it was produced)
+		hay = append(hay, ev.ArgAfter.Data, ev.ArgAfter.Key.EncryptedKey)
 	}
 	for _, c := range w.Log.Calls[ev.CallFrom:ev.CallTo] {
 		if c.Target == "store" && c.Op == "Store" && c.OK {
